@@ -82,6 +82,48 @@ def both_origins(sh, doc, seed, suite, parts, fn=check_sql, api_inline=False):
        text=None if api_inline else text)
 
 
+def edit_and_recheck(sh, doc, rng, seed, parts):
+    """render once, edit the live model in place (the same edit is applied to a copy of the abstract document),
+    render again: the second DDL must state the edited model (no stale layout from the first rendering)"""
+    import copy
+    d2 = copy.deepcopy(doc)
+    db = apibuild.build(d2)
+    try:
+        db.sql
+    except Exception:
+        return
+    order = [i for k, i in d2.order if k == 't']
+    n = 0
+    for k, ti in enumerate(order):
+        T, A = db.tables[k], d2.tables[ti]
+        for c, a in zip(T.columns, A.columns):
+            if rng.random() < 0.35:
+                what = rng.choice(['pk', 'unique', 'not_null', 'autoinc', 'default', 'default-none'])
+                if what == 'default':
+                    a.default = am.Default('int', rng.choice([0, 3, 77]))
+                    c.default = a.default.value
+                elif what == 'default-none':
+                    a.default = None
+                    c.default = None
+                else:
+                    v = not getattr(a, what)
+                    setattr(a, what, v)
+                    setattr(c, what, v)
+                n += 1
+        for ix, ai in zip(T.indexes, A.indexes):
+            if rng.random() < 0.3:
+                ai.unique = not ai.unique
+                ix.unique = ai.unique
+                n += 1
+        if rng.random() < 0.3:
+            A.name = A.name + '_rn'
+            T.name = A.name
+            n += 1
+    if n:
+        sh.count('obs.edits_before_second_render', n)
+        check_sql(sh, d2, db, 'api', 'edited', parts)
+
+
 def plan(tier, seed):
     return [{'shard': i, 'of': 16} for i in range(16)]
 
@@ -113,6 +155,8 @@ def run_shard(spec, tier, seed, budget_s):
             if rng.random() < 0.2 and gen.same_bare_names(doc, rng):
                 suite = 'samebare'      # equal bare table names in different schemas
             both_origins(sh, doc, f'{seed}-{i}-{k}', suite, PARTS)
+            if k % 3 == 0:
+                edit_and_recheck(sh, doc, rng, f'{seed}-{i}-{k}', PARTS)
     for k2, v in reach.counts.items():
         if k2.startswith('renderer.sql'):
             sh.count('reach.' + k2, v)
@@ -122,7 +166,7 @@ def run_shard(spec, tier, seed, budget_s):
 def conclusive(agg, tier):
     c = agg['counters']
     out = []
-    for k in ('obs.cases.product.sqlcolumn.api', 'obs.cases.product.sqlcolumn.parsed', 'obs.cases.random.api', 'obs.cases.samebare.api',
+    for k in ('obs.cases.product.sqlcolumn.api', 'obs.cases.product.sqlcolumn.parsed', 'obs.cases.random.api', 'obs.cases.samebare.api', 'obs.cases.edited.api',
               'obs.cases.random.parsed', 'class.schema_qualified_table', 'class.composite_pk_clause',
               'class.table_with_index', 'class.table_with_comment_on', 'obs.statements.create_table',
               'obs.statements.create_index', 'obs.statements.comment_on', 'obs.statements.create_type'):
